@@ -23,7 +23,7 @@ from edgegraph.builder import adjlist, adjmatrix
 from .. import engine_h, battery, canon as _canon
 from ..fixtures_mod import NB_FILTERS, DIRS, UNKS, HyperLink
 from ..report import Report
-from ..structure import Alphabet, SWorld, apply_op, canon_world, observe, inv_links
+from ..structure import Alphabet, SWorld, apply_op, canon_world, observe, inv_links, memo_is_warm
 
 PROP = "C12"
 
@@ -370,7 +370,7 @@ LEAK_COUNTS = {"n": 0, "applied": 0}
 
 def leak_check(w, fresh=None):
     out = []
-    memo = "warm" if any(vars(v).get("_Vertex__qa_nb_cache") for v in w.v) else "cold"
+    memo = "warm" if any(memo_is_warm(v) for v in w.v) else "cold"
     for kind, name, mname, pos in leak_menu(w):
         bad, outcome = leak_differential(w, kind, name, mname, pos, fresh=fresh)
         LEAK_COUNTS["n"] += 1
